@@ -80,9 +80,9 @@ var allCodeLines = []codeLine{
 	{"CTOR01", "L-CTOR01"}, {"CTOR02", "L-CTOR02"}, {"CTOR03", "L-CTOR03"},
 	{"TONL01", "L-TONL01"}, {"TONL02", "L-TONL02"}, {"TONL03", "L-TONL03"},
 	{"PKGO01", "L-PKGO01"}, {"PKGO02", "L-PKGO02"}, {"PKGO03", "L-PKGO03"},
-	{"CTOR01", "L-CONT"}, // on a continuation line of a multi-line call
+	{"CTOR01", "L-CONT"},  // on a continuation line of a multi-line call
 	{"CTOR03", "L-GROUP"}, // inside a var ( ... ) group: the diagnostic sits on the variable's own line
-	{"CTOR03", "L-LAST"}, // on the last line of the file (no final newline)
+	{"CTOR03", "L-LAST"},  // on the last line of the file (no final newline)
 }
 
 func allCategory(code string) string {
